@@ -284,8 +284,8 @@ def _run_1d(case, R, src):
             return
         axis_f, rates_f, err_f, o_f = _oracle_1d(mspec, model, grid)
         lam_f, lam_c = float(rates_f.sum()), float(rates_c.sum())
-        if lam_c < 1e-9:
-            R.skip("chain intensity below 1e-9: cell masses under the resolution of the closed forms")
+        if lam_c < W.resolution_floor(mspec):
+            R.skip("chain intensity below 1e-9 (or a millionth of the model's intensity): cell masses under the resolution of the closed forms")
             return
         sim = cp._path_coupling_simulation
         # ---- (a) kernel of every fine increment --------------------------------------------------------------
